@@ -213,6 +213,63 @@ func c18(r *core.Report) {
 		}
 	}
 
+	// ---- C18-MINEXPIRES: Expire skips a bucket whose minExpiresAt is not before now, so
+	// minExpiresAt must stay a lower bound of the bucket's expiry times: it may only be lowered
+	// (updateMinExpires), or reset to zero by a function that then re-derives it from every
+	// remaining entry.
+	r.Rule("C18-MINEXPIRES", "bucket.minExpiresAt is only lowered, or reset and recomputed from all remaining entries", 2)
+	{
+		minF := needField(r, "p/kademlia", "bucket", "minExpiresAt")
+		upd := needFn(r, "p/kademlia", "bucket.updateMinExpires")
+		if minF != nil && upd != nil {
+			for _, fn := range p.ModFuncs {
+				for _, st := range core.StoresToField(fn, minF) {
+					c := core.FnName(fn) + " store minExpiresAt"
+					if fn == upd {
+						// only under: current is zero, or x is before current
+						cut := core.CutWhere(func(cond ssa.Value) int {
+							cc, ok := cond.(*ssa.Call)
+							if !ok {
+								return 0
+							}
+							switch core.CalleeName(cc.Common()) {
+							case "(time.Time).IsZero", "(time.Time).Before":
+								return 1
+							}
+							return 0
+						})
+						r.Check(core.GuardEdges(fn, cut) > 0 && core.GuardedFromEntry(fn, st, cut), "C18-MINEXPIRES", c, p.Pos(st.Pos()), "the minimum is replaced only when unset or when the new time is earlier", "updateMinExpires can raise the minimum: Expire then skips a bucket that holds an entry past its time")
+						continue
+					}
+					// a reset: must be followed by a loop over the bucket's entries that calls updateMinExpires
+					okLoop := false
+					for in := range core.Reach(fn, st, nil, nil) {
+						cc, ok := in.(*ssa.Call)
+						if !ok || !core.IsCallToFn(cc.Common(), upd) {
+							continue
+						}
+						// inside a range over entries
+						if core.DerivesFrom(cc.Call.Args[1], func(x ssa.Value) bool {
+							nx, ok := x.(*ssa.Next)
+							if !ok {
+								return false
+							}
+							rg, ok := nx.Iter.(*ssa.Range)
+							if !ok {
+								return false
+							}
+							f, _ := core.FieldRead(rg.X)
+							return core.SameField(f, entriesF)
+						}) {
+							okLoop = true
+						}
+					}
+					r.Check(okLoop, "C18-MINEXPIRES", c, p.Pos(st.Pos()), "after the reset the minimum is recomputed from every remaining entry", "minExpiresAt is reset without being recomputed from the remaining entries: the next Put adopts its own (later) expiry as the minimum, and Expire skips the bucket although an older entry is past its time")
+				}
+			}
+		}
+	}
+
 	// ---- C18-LOCK (shared engine with C14)
 	r.Rule("C18-LOCK", "count and buckets are accessed under Cache.mu", 10)
 	L := core.NewLocks(p, false)
